@@ -15,8 +15,7 @@
    Third-party solvers (flexsolve, scipy) and the property package (activity coefficients, solubility_eutectic,
    heat capacities) are oracles: fields of the records carried by each operation.
    No proofs in this file. *)
-From V Require Export Common.Num.
-From V Require Export C15.Gen_kernels.
+From V Require Export C15.Base C15.Gen_kernels.
 
 (* ------------------------------------------------------------------ small helpers *)
 Definition pick (v : vec) (idx : list nat) : vec := map (nthq v) idx.
@@ -39,8 +38,6 @@ Definition vmaxq (v : vec) : Q := match v with [] => 0 | x :: t => fold_left Qma
 Definition vminq (v : vec) : Q := match v with [] => 0 | x :: t => fold_left Qmin t x end.
 Definition nonzerob (x : Q) : bool := negb (qzerob x).
 
-(* float constants of the source as the exact rationals of the doubles (checked against the
-   source text by the translator: Gen_kernels.v re-exports them as c_* and Model uses those) *)
 
 (* ------------------------------------------------------------------ phase_fraction *)
 (* extended value of the objective function at phi = 1: numba array division gives inf/nan, not an exception *)
@@ -98,11 +95,9 @@ Definition phase_fraction (o : rr_oracle) (zs Ks : vec) : res Q :=
        | _ =>
          if qleb (vmaxq Ks) c_one_plus then Ok 1
          else if qleb c_one_minus (vminq Ks) then Ok 0
-         else match zs, Ks with
-              | [z1; z2], [K1; K2] =>
-                  do r <- compute_phase_fraction_2N z1 z2 K1 K2; Ok (as_valid_fraction r)
-              | _, _ => Err EValue
-              end
+         else if Nat.eqb (length zs) 2 then
+                do r <- compute_phase_fraction_2N zs Ks; Ok (as_valid_fraction r)
+              else Err EValue
        end.
 
 (* ------------------------------------------------------------------ LLE wrapper *)
@@ -203,13 +198,12 @@ Definition write_back (s : strm) (index : list nat) (F : Q) (mol_l mol_L : vec) 
          (m_o s) (tcT s) (tcP s).
 
 (* the cached-K branch: Rachford-Rice split of the CURRENT z with the stored K *)
-Definition cached_split (o : rr_oracle) (K : vec) (z : vec) : res (Q * vec * vec) :=
-  do phi <- phase_fraction o z K;
-  if qleb 1 phi then Ok (phi, z, vscale 0 z)
+Definition cached_split (phi : Q) (K : vec) (z : vec) : res (vec * vec) :=
+  if qleb 1 phi then Ok (z, vscale 0 z)
   else
     do y <- vdivc (vmul z K) (map (fun k => phi * k + (1 - phi)) K);
-    let mol_l := vscale phi y in
-    Ok (phi, mol_l, vsub z mol_l).
+    let mol_l := map (fun e_ => e_ * phi) y in
+    Ok (mol_l, vsub z mol_l).
 
 (* the part of __call__ after mol_l, mol_L are known *)
 Definition finish (E : env) (st : lle_st) (s1 : strm) (index : list nat) (F : Q) (z : vec)
@@ -233,8 +227,8 @@ Definition lle_call (E : env) (o : lle_oracle) (st : lle_st) (s : strm) (a : arg
   let F := qsum mol in
   if nonzerob F && Nat.ltb 1 (length index) then
     let z := vdivs mol F in
-    let uc := ause_cache a && chems_same (schems st) index
-              && use_cache_test (aT a) (sT st) (tolT st) (sz st) z (tolz st) in
+    let uc := use_cache_expr (ause_cache a) (chems_same (schems st) index)
+                             (aT a) (sT st) (tolT st) (sz st) z (tolz st) in
     if uc then
       match sK st with
       | None => (st, s1, mktr true None (Err EType))
@@ -243,9 +237,9 @@ Definition lle_call (E : env) (o : lle_oracle) (st : lle_st) (s : strm) (a : arg
         | Err e => (st, s1, mktr true None (Err e))
         | Ok phi =>
           let st1 := with_phi st (Some phi) in
-          match cached_split (o_rr o) K z with
+          match cached_split phi K z with
           | Err e => (st1, s1, mktr true None (Err e))
-          | Ok (_, mol_l, mol_L) =>
+          | Ok (mol_l, mol_L) =>
             let '(st', s', r) := finish E st1 s1 index F z a mol_l mol_L in
             (st', s', mktr true None r)
           end
@@ -294,4 +288,51 @@ Fixpoint lrun (E : env) (p : lle_st * strm) (ops : list lop) : lle_st * strm * l
     let '(st', s', t) := lstep E p op in
     let '(st'', s'', ts) := lrun E (st', s') rest in
     (st'', s'', t :: ts)
+  end.
+
+(* ------------------------------------------------------------------ comparators used by the correspondence files *)
+Definition oq_approxb (a b : option Q) : bool := opt_eqb qapproxb a b.
+Definition ov_approxb (a b : option vec) : bool := opt_eqb vapproxb a b.
+
+Definition sin_eqb (a b : solver_in) : bool :=
+  ov_approxb (iK a) (iK b) && oq_approxb (iphi a) (iphi b) && vapproxb (iz a) (iz b)
+  && qeqb (iT a) (iT b) && idx_eqb (iidx a) (iidx b) && Bool.eqb (isingle a) (isingle b).
+
+Definition ret_eqb (a b : ret) : bool :=
+  match a, b with
+  | RNone, RNone => true
+  | RTriple i K p, RTriple i' K' p' => idx_eqb i i' && vapproxb K K' && qapproxb p p'
+  | _, _ => false
+  end.
+
+Definition trace_eqb (a b : trace) : bool :=
+  Bool.eqb (t_used_cache a) (t_used_cache b)
+  && opt_eqb sin_eqb (t_solver_in a) (t_solver_in b)
+  && res_eqb ret_eqb (t_ret a) (t_ret b).
+
+(* what the harness observes after each operation *)
+Record lobs := mkobs {
+  ob_l : vec; ob_L : vec; ob_o : vec; ob_T : Q; ob_P : Q;
+  ob_K : option vec; ob_phi : option Q; ob_sT : Q; ob_sz : vec; ob_chems : option (list nat);
+  ob_trace : option trace
+}.
+
+Definition obs_eqb (st : lle_st) (s : strm) (t : option trace) (e : lobs) : bool :=
+  vapproxb (m_l s) (ob_l e) && vapproxb (m_L s) (ob_L e) && veqb (m_o s) (ob_o e)
+  && qeqb (tcT s) (ob_T e) && qeqb (tcP s) (ob_P e)
+  && ov_approxb (sK st) (ob_K e) && oq_approxb (sphi st) (ob_phi e)
+  && opt_eqb idx_eqb (schems st) (ob_chems e)
+  && match schems st with
+     | Some _ => qeqb (sT st) (ob_sT e) && vapproxb (sz st) (ob_sz e)
+     | None => true
+     end
+  && opt_eqb trace_eqb t (ob_trace e).
+
+Fixpoint lrun_check (E : env) (p : lle_st * strm) (ops : list lop) (exp : list lobs) : bool :=
+  match ops, exp with
+  | [], [] => true
+  | op :: ops', e :: exp' =>
+    let '(st', s', t) := lstep E p op in
+    obs_eqb st' s' t e && lrun_check E (st', s') ops' exp'
+  | _, _ => false
   end.
